@@ -124,10 +124,10 @@ Definition errs_in (p : pseg) (ea : list err) : list err := map (err_in p) ea.
 (* a resolver invocation, as the harness logs it *)
 Record call := mkCall { c_node : nat; c_field : nat; c_args : list (nat * value) }.
 
-(* the request AST is written into while resolving: at a Field's first visit ConType is set and
+(* the request AST is written into while resolving: whenever a Field is visited under another container type ConType is set and
    Field.Args is replaced by the definition-ordered slice (sortArgs under that ConType); later
    visits use the mutated Args *)
-Record st := mkSt { s_args : list (nat * nat) (* Field node -> ConType of its first visit; Field.Args = sortArgs under it *); s_calls : list call }.
+Record st := mkSt { s_args : list (nat * nat) (* Field node -> ConType of its latest visit (first match); Field.Args = sortArgs under it *); s_calls : list call }.
 
 Inductive outcome (A : Type) := Done (a : A) | OutOfFuel.
 Arguments Done {A} a.
@@ -171,12 +171,24 @@ Definition coerce_out (k : lkind) (g : gv) : rv * bool :=
 (* ------------------------------------------------------------------ arguments *)
 Definition is_nonnull (t : ty) : bool := match t with TNonNull _ => true | _ => false end.
 
-(* CoerceIn for the argument types used in this model (scalars, enums, NonNull of them);
+Fixpoint all_some {A : Type} (l : list (option A)) : option (list A) :=
+  match l with
+  | [] => Some []
+  | Some x :: r => match all_some r with Some xs => Some (x :: xs) | None => None end
+  | None :: _ => None
+  end.
+
+(* CoerceIn for the argument types used in this model (scalars, enums, lists and NonNull of them);
    None = coercion error *)
 Fixpoint coerce_in (S : schema) (t : ty) (v : value) : option value :=
   match t with
   | TNonNull b => match v with VNull => None | _ => coerce_in S b v end
-  | TList _ => Some v       (* lists: stage B (Coerce.v) *)
+  | TList b =>               (* List.CoerceIn: nil stays nil, a list is coerced element by element, anything else is an error *)
+      match v with
+      | VNull => Some VNull
+      | VList l => option_map VList (all_some (map (coerce_in S b) l))
+      | _ => None
+      end
   | TNamed n =>
       match lookup n S, v with
       | _, VNull => Some VNull
@@ -193,34 +205,68 @@ Fixpoint coerce_in (S : schema) (t : ty) (v : value) : option value :=
 Fixpoint base_type (t : ty) : nat :=
   match t with TNamed n => n | TList b => base_type b | TNonNull b => base_type b end.
 
-(* root.replaceArgVars for scalar-ish values *)
-Definition replace_arg_vars (S : schema) (vars : list (nat * value)) (v : value) (at_ : option ty) : value * list err :=
+(* root.replaceArgVars: variables are replaced by their values (in a copy of the literal) and the
+   result is coerced by the declared type where there is one.  A literal of the wrong kind for the
+   type (a list for a scalar, an enum value for a list, ...) is handed to the type's CoerceIn, which
+   refuses it.  A list literal for a list type ([T] or [T]!) is replaced and coerced element by
+   element against T; the list itself is not coerced again.  Input object types are not part of
+   this model's schemas (Coerce.v has them): an object literal is refused by every declared type. *)
+Definition coerce_or_err (S : schema) (t : ty) (v : value) : value * list err :=
+  match coerce_in S t v with
+  | Some w => (w, [])
+  | None => (VNull, [mkErr [] LNone ECoerceIn])
+  end.
+
+Definition list_base (t : ty) : option ty :=
+  match t with
+  | TList b => Some b
+  | TNonNull (TList b) => Some b
+  | _ => None
+  end.
+
+Definition enum_vals (S : schema) (t : ty) : option (list nat) :=
+  let n := match t with TNamed n => Some n | TNonNull (TNamed n) => Some n | _ => None end in
+  match n with
+  | Some n => match lookup n S with Some (DLeaf (LEnum vals)) => Some vals | _ => None end
+  | None => None
+  end.
+
+Fixpoint replace_arg_vars (S : schema) (vars : list (nat * value)) (v : value) (at_ : option ty) {struct v} : value * list err :=
   match v with
   | VVar x =>
       let val := match lookup x vars with Some w => w | None => VNull end in
       match at_ with
-      | Some t => match coerce_in S t val with
-                  | Some w => (w, [])
-                  | None => (VNull, [mkErr [] LNone ECoerceIn])
-                  end
+      | Some t => coerce_or_err S t val
       | None => (val, [])
       end
   | VEnum e =>
       match at_ with
       | Some t =>
-          match lookup (base_type t) S with
-          | Some (DLeaf (LEnum vals)) => if existsb (Nat.eqb e) vals then (v, []) else (v, [mkErr [] LNone EBadEnum])
-          | _ => (v, [])
+          match enum_vals S t with
+          | Some vals => if existsb (Nat.eqb e) vals then (v, []) else (v, [mkErr [] LNone EBadEnum])
+          | None => coerce_or_err S t v
           end
       | None => (v, [])
       end
-  | VList _ | VObj _ => (v, [])      (* containers: stage B *)
+  | VList l =>
+      match at_ with
+      | Some t =>
+          match list_base t with
+          | Some b => let rs := map (fun x => replace_arg_vars S vars x (Some b)) l in
+                      (VList (map fst rs), flat_map snd rs)
+          | None => coerce_or_err S t v
+          end
+      | None => let rs := map (fun x => replace_arg_vars S vars x None) l in
+                (VList (map fst rs), flat_map snd rs)
+      end
+  | VObj _ =>
+      match at_ with
+      | Some t => coerce_or_err S t v
+      | None => (v, [])
+      end
   | _ =>
       match at_ with
-      | Some t => match coerce_in S t v with
-                  | Some w => (w, [])
-                  | None => (VNull, [mkErr [] LNone ECoerceIn])
-                  end
+      | Some t => coerce_or_err S t v
       | None => (v, [])
       end
   end.
@@ -592,13 +638,10 @@ with resolve_field (fuel : nat) (obj : gv) (id : nat) (alias : option nat) (name
   | 0 => OutOfFuel
   | Datatypes.S fuel' =>
       let key := key_of alias name in
-      (* first visit: ConType = t; sortArgs *)
-      let '(cur_args, ea_sort, s0) :=
-        match lookup id (s_args s) with
-        | Some t0 => (fst (sort_args S t0 name args), snd (sort_args S t0 name args), s)   (* Field.badArgs are reported again *)
-        | None => let (a, e) := sort_args S t name args in
-                  (a, e, mkSt ((id, t) :: s_args s) (s_calls s))
-        end in
+      (* ConType = t; sortArgs of the arguments as written whenever the container type differs from the
+         previous visit's (the same sorting when it does not): Field.Args is always sorted under t here *)
+      let '(cur_args, ea_sort) := sort_args S t name args in
+      let s0 := mkSt ((id, t) :: s_args s) (s_calls s) in
       match ea_sort with
       | _ :: _ => Done (result, errs_in (PKey key) ea_sort, s0)
       | [] =>
@@ -677,14 +720,14 @@ Record vardef := mkVar { vd_name : nat; vd_type : ty; vd_default : option value 
 Record op := mkOp { op_kind : opkind; op_name : option nat; op_vars : list vardef; op_sels : list sel }.
 Record doc := mkDoc { d_ops : list op; d_frags : list (nat * fragment) }.
 
-(* exe.Ops[opName], or the only operation *)
+(* exe.Ops[opName], or the only operation when no name is given *)
 Definition same_name (a b : option nat) : bool :=
   match a, b with Some x, Some y => Nat.eqb x y | None, None => true | _, _ => false end.
 
 Definition choose_op (d : doc) (name : option nat) : option op :=
   match find (fun o => same_name (op_name o) name) (d_ops d) with
   | Some o => Some o
-  | None => match d_ops d with [o] => Some o | _ => None end
+  | None => match name, d_ops d with None, [o] => Some o | _, _ => None end
   end.
 
 (* variable binding of ResolveExecutable: default, overridden by a non-nil supplied value coerced
